@@ -56,7 +56,7 @@ def _enc_fns(fnname):
 
 PROPS = {}
 _WR2 = ("cp /repo/Cargo.lock /verif/witness/Cargo.lock && CARGO_TARGET_DIR=/verif/build/witness cargo run --offline -q --release "
-        "--manifest-path /verif/witness/Cargo.toml --bin %s 2>&1 | grep -E '^(WITNESS|EXHAUSTIVE|error)' | tail -12")
+        "--manifest-path /verif/witness/Cargo.toml --bin %s 2>&1 | grep -E '^(WITNESS|EXHAUSTIVE|SKIPPED|error)' | tail -220")
 
 # ----------------------------------------------------------------------- C03
 PROPS["C03"] = dict(
@@ -117,7 +117,7 @@ PROPS["C26"] = dict(
           expected_verified=7),
         N("C26.writer_messages",
           "cp /repo/Cargo.lock /verif/witness/Cargo.lock && CARGO_TARGET_DIR=/verif/build/witness cargo run --offline -q --release "
-          "--manifest-path /verif/witness/Cargo.toml --bin c26_writer_messages 2>&1 | grep -E '^(WITNESS|EXHAUSTIVE|SKIPPED|error)' | tail -12",
+          "--manifest-path /verif/witness/Cargo.toml --bin c26_writer_messages 2>&1 | grep -E '^(WITNESS|EXHAUSTIVE|SKIPPED|error)' | tail -220",
           "message level, on the compiled synchronous PDataWriter through a real association over a loopback TCP connection inside the process "
           "(acceptor maximum PDU length = the library's minimum): payloads of 0, 1, 2 bytes and around 1x, 2x, 3x the maximum data length, "
           "written in one write, byte by byte, in 7 / 500 / 1000-byte writes, in writes straddling the PDU boundary and after an empty "
@@ -127,19 +127,23 @@ PROPS["C26"] = dict(
           fns=[("ul/src/association/pdata.rs", "setup_pdata_header")], timeout=600),
         N("C26.async",
           "cp /repo/Cargo.lock /verif/witness/Cargo.lock && CARGO_TARGET_DIR=/verif/build/witness cargo run --offline -q --release "
-          "--manifest-path /verif/witness/Cargo.toml --bin c26_async 2>&1 | grep -E '^(WITNESS|EXHAUSTIVE|SKIPPED|error)' | tail -12",
+          "--manifest-path /verif/witness/Cargo.toml --bin c26_async 2>&1 | grep -E '^(WITNESS|EXHAUSTIVE|SKIPPED|error)' | tail -220",
           "the asynchronous clauses, on the compiled code (dicom-ul built with the `async` feature, tokio runtime inside the process): the "
           "asynchronous writer through an asynchronous requestor association over loopback TCP — same payload sizes and write schedules as "
           "C26.writer_messages, PDUs inspected by a synchronous acceptor; the asynchronous reader (AsyncRead for PDataReader) on "
           "writer-shaped messages from a mock transport delivering segments of 1 / 5 / 13 / all bytes and answering Pending on every other "
-          "poll, caller buffers of 1 / 2 / 64 bytes: exactly the payload, exactly the following bytes left (the writer part is skipped, "
-          "not failed, where loopback TCP is unavailable)",
-          bound="1048 cases: 40 writer (payload, schedule) pairs + 1008 reader (message shape, continuation, segment size, buffer size) cases "
-                "(native run of the compiled code; Pending patterns of a real socket are whatever the kernel produces; not a deductive result)",
+          "poll, caller buffers of 1 / 2 / 64 bytes: exactly the payload, exactly the following bytes left; the asynchronous writer under "
+          "back-pressure: 8 / 12 / 24 MiB (more than the loopback socket buffers hold) written in chunks that do not line up with the PDU data "
+          "length to an acceptor that starts reading after 1.5 s and reads slowly, so that the transport accepts PDUs in part and answers "
+          "Pending in between: every PDU well-formed, the values concatenate to the payload (the writer parts are skipped, not failed, where "
+          "loopback TCP is unavailable)",
+          bound="1051 cases: 40 writer (payload, schedule) pairs + 1008 reader (message shape, continuation, segment size, buffer size) cases "
+                "+ 3 back-pressure runs (native run of the compiled code; Pending patterns of a real socket are whatever the kernel produces; "
+                "not a deductive result)",
           fns=[("ul/src/association/pdata.rs", "setup_pdata_header")], timeout=900),
         N("C26.reader_messages",
           "cp /repo/Cargo.lock /verif/witness/Cargo.lock && CARGO_TARGET_DIR=/verif/build/witness cargo run --offline -q --release "
-          "--manifest-path /verif/witness/Cargo.toml --bin c26_reader_messages 2>&1 | grep -E '^(WITNESS|EXHAUSTIVE|error)' | tail -12",
+          "--manifest-path /verif/witness/Cargo.toml --bin c26_reader_messages 2>&1 | grep -E '^(WITNESS|EXHAUSTIVE|SKIPPED|error)' | tail -220",
           "message level, on the compiled PDataReader (survives restructurings of `read` that the extracted-text proof cannot follow): "
           "writer-shaped messages (1-3 P-DATA PDUs, one value each, only the final one marked last, final value possibly empty) followed by "
           "nothing / a second message / A-RELEASE-RQ: reading until Ok(0) returns exactly the payload and read_buffer ++ transport holds "
@@ -243,6 +247,16 @@ PROPS["C18"] = dict(
           "1-4 fragments): frame i's data is exactly the concatenation of its fragments",
           bound="128 image shapes (native enumeration of the compiled code; not a deductive result)",
           fns=[(_FR, "len", r"impl\s+Fragments\b")]),
+        N("C18.transcode", _WR2 % "c18_transcode",
+          "on the compiled code, the TRANSCODING clause: native images (8 bit x 1 / 3 samples, 16 bit x 1 sample; 1-3 frames; odd and even "
+          "frame sizes) transcoded (dicom_pixeldata::Transcode) into every registered encapsulated transfer syntax that has an encoder in "
+          "this build (3: Encapsulated Uncompressed, Deflated Image Frame Compression, JPEG Baseline): one offset table entry per frame, "
+          "entry i = byte offset of frame i's first item from the first item after the table, in memory and as found by an independent walk "
+          "of the WRITTEN data set where every fragment item has even length; Number of Frames matches; Encapsulated Pixel Data Value Total "
+          "Length, when set, equals the total length of all fragments",
+          bound="63 transcodings (21 image shapes x 3 encoder targets; native enumeration of the compiled code; not a deductive result)",
+          fns=[("pixeldata/src/transcode.rs", "transcode_with_options", r"impl<D>\s+Transcode\s+for"),
+               ("transfer-syntax-registry/src/adapters/deflated.rs", "encode_frame", r"impl\s+PixelDataWriter\s+for\s+DeflatedImageFrameAdapter")]),
         K("C18.fragments_new", "ext", _single,
           "Fragments::new + From<Vec<Fragments>> (single frame): every fragment even and of equal size, fragments "
           "concatenate to the data followed by < 1 fragment of zero padding, offset table [0]",
@@ -287,7 +301,7 @@ PROPS["C15"] = dict(
           expected_verified=8),
         N("C15.exhaustive",
           "cp /repo/Cargo.lock /verif/witness/Cargo.lock && CARGO_TARGET_DIR=/verif/build/witness cargo run --offline -q --release "
-          "--manifest-path /verif/witness/Cargo.toml --bin c15_exhaustive 2>&1 | grep -E '^(WITNESS|EXHAUSTIVE|error)' | tail -12",
+          "--manifest-path /verif/witness/Cargo.toml --bin c15_exhaustive 2>&1 | grep -E '^(WITNESS|EXHAUSTIVE|SKIPPED|error)' | tail -220",
           "every one of the 2^32 tags: StandardDataDictionary::by_tag == the statement's precedence evaluated over the table rows "
           "parsed from the text of dictionary-std/src/tags.rs (exact, repeating group, repeating element, private creator, group length, none); "
           "every keyword of the table resolves through by_name / by_expr / parse_tag to an entry with that keyword and tag, near-miss spellings "
@@ -311,7 +325,7 @@ PROPS["C15"] = dict(
 
 # ----------------------------------------------------------------------- C07
 _WR = ("cp /repo/Cargo.lock /verif/witness/Cargo.lock && CARGO_TARGET_DIR=/verif/build/witness cargo run --offline -q --release "
-       "--manifest-path /verif/witness/Cargo.toml --bin %s 2>&1 | grep -E '^(WITNESS|EXHAUSTIVE|error)' | tail -12")
+       "--manifest-path /verif/witness/Cargo.toml --bin %s 2>&1 | grep -E '^(WITNESS|EXHAUSTIVE|SKIPPED|error)' | tail -220")
 _W = ("cp /repo/Cargo.lock /verif/witness/Cargo.lock && CARGO_TARGET_DIR=/verif/build/witness cargo run --offline -q "
       "--manifest-path /verif/witness/Cargo.toml --bin %s 2>&1 | grep -v '^thread\\|^note\\|panicked\\|^ ' | tail -16")
 PROPS["C07"] = dict(
@@ -678,7 +692,7 @@ PROPS["C16"] = dict(
                (_TSM, "is_unsupported_pixel_encapsulation"), (_TSM, "is_encapsulated_pixel_data"), (_TSM, "is_codec_free")]),
         N("C16.registry",
           "cp /repo/Cargo.lock /verif/witness/Cargo.lock && CARGO_TARGET_DIR=/verif/build/witness cargo run --offline -q --release "
-          "--manifest-path /verif/witness/Cargo.toml --bin c16_registry 2>&1 | grep -E '^(WITNESS|EXHAUSTIVE|error)' | tail -12",
+          "--manifest-path /verif/witness/Cargo.toml --bin c16_registry 2>&1 | grep -E '^(WITNESS|EXHAUSTIVE|SKIPPED|error)' | tail -220",
           "every registered transfer syntax (registry compiled with features native+deflate): UID lookup with and without trailing NULs/spaces "
           "returns it, UIDs unique, only Implicit VR LE is implicit and only Explicit VR BE is big endian (observed on an encoded header), "
           "decodable data sets have decoder and encoder, capability queries agree with the codec offered; decoder/encoder presence for the "
@@ -698,7 +712,7 @@ PROPS["C20"] = dict(
     units=[
         N("C20.rle",
           "cp /repo/Cargo.lock /verif/witness/Cargo.lock && CARGO_TARGET_DIR=/verif/build/witness cargo run --offline -q --release "
-          "--manifest-path /verif/witness/Cargo.toml --bin c20_rle 2>&1 | grep -E '^(WITNESS|EXHAUSTIVE|error)' | tail -12",
+          "--manifest-path /verif/witness/Cargo.toml --bin c20_rle 2>&1 | grep -E '^(WITNESS|EXHAUSTIVE|SKIPPED|error)' | tail -220",
           "RleLosslessAdapter::decode and decode_frame (real adapter, reached through entries::RLE_LOSSLESS.codec()) on images encoded by a "
           "reference PS3.5 Annex G encoder: output == little-endian pixel-interleaved samples, whole == concatenation of the frames",
           bound="8/16 bits allocated x 1/3 samples per pixel x 1-3 pixels x 1-2 frames x 4 literal/replicate splits (incl. -128 no-ops) x 3 "
@@ -725,7 +739,7 @@ PROPS["C09"] = dict(
           expected_verified=5),
         N("C09.written_length",
           "cp /repo/Cargo.lock /verif/witness/Cargo.lock && CARGO_TARGET_DIR=/verif/build/witness cargo run --offline -q --release "
-          "--manifest-path /verif/witness/Cargo.toml --bin c09_written_length 2>&1 | grep -E '^(WITNESS|EXHAUSTIVE|error)' | tail -12",
+          "--manifest-path /verif/witness/Cargo.toml --bin c09_written_length 2>&1 | grep -E '^(WITNESS|EXHAUSTIVE|SKIPPED|error)' | tail -220",
           "tables built by the real builder, written by the real FileMetaTable::write and read back by from_reader: recorded group length == "
           "bytes that follow the group length element == table.information_group_length, and the table read back is equal",
           bound="1458 tables: every presence combination of the optional attributes (incl. private information with and without a creator UID) with even- and odd-length values (native enumeration; survives "
@@ -781,21 +795,27 @@ PROPS["C34"] = dict(
           "PDataWriter::write / dispatch_pdu / finish_impl: a transport failure makes the call return Err", expected_verified=11),
         N("C34.io_failures", _WR2 % "c34_io_failures",
           "whole data sets and files, on the compiled code: a small object (text, numbers, odd-length bytes, nested sequence, native or "
-          "encapsulated pixel data) written as a data set in Implicit VR LE / Explicit VR LE / Explicit VR BE and as a complete file to a "
+          "encapsulated pixel data) written as a data set in Implicit VR LE / Explicit VR LE / Explicit VR BE / Deflated Explicit VR LE and as a complete file (also a deflated one) to a "
           "sink that fails, or accepts zero bytes, at byte offset k (from then on, or once only) — for EVERY k up to the length of the output the operation "
           "returns an error (never Ok, never a panic), and a sink accepting one byte per call receives the identical complete output; the "
-          "same streams read back from a source that reports an I/O error at offset k, for every k: an error, never a partial object; a stream "
+          "same streams read back from a source that reports an I/O error (kinds Other, ConnectionReset, TimedOut) at offset k, for every k: an "
+          "error, never a partial object; from a source that ENDS at offset k (no more bytes, or an error of kind UnexpectedEof): an error at every "
+          "k except where a top-level element or an item header of top-level encapsulated pixel data would start (independent structural walk "
+          "of the written stream; the two places where read.rs documents that the end of the source is taken for the end of the data set); a stream "
           "of three PDUs received through read_pdu_from_wire from a transport failing at offset k (every k, three segment sizes): the PDUs "
-          "completely before the failure are received, then an error",
-          bound="14 465 (operation, failure mode, offset) cases over 2 objects x (3 data set syntaxes + file) (native enumeration of the compiled "
-                "code; not a deductive result)",
+          "completely before the failure are received, then an error; PDUs of 8 types sent with write_pdu to a sink failing at offset k (every k, "
+          "every failure mode): an error",
+          bound="33 262 (operation, failure mode, offset) cases over 2 objects x (4 data set syntaxes + file) + a deflated file + 8 PDUs (native "
+                "enumeration of the compiled code; not a deductive result)",
           fns=[("object/src/mem.rs", "write_dataset_with_ts"), ("object/src/mem.rs", "read_dataset_with_ts")]),
     ],
     assumptions=["a failing writer is modelled as one that accepts zero bytes from some offset on (std write_all turns that into an error); "
                  "io::Error values produced by the writer itself are outside the Kani harnesses (bit-packed representation is too costly)",
                  "Drop for PDataWriter discards the result of finish_impl by design; the public finish() propagates it"],
     uncovered=["whole-file / data-set writers and readers deductively (FileDicomObject::write_*, DataSetWriter, DataSetReader: only the native "
-               "unit C34.io_failures covers them, for two small objects)", "deflate adapter", "PDU sending in associations (sockets)"],
+               "unit C34.io_failures covers them, for two small objects)",
+               "the deflate data set adapter (Box<dyn Write>, flate2): only the native unit C34.io_failures, which found defect S23 there",
+               "PDU sending and receiving inside live associations (sockets): only write_pdu / read_pdu_from_wire on failing transports in the native unit"],
 )
 
 # ----------------------------------------------------------------------- C05
@@ -839,6 +859,44 @@ PROPS["C05"] = dict(
           "or an error, never a panic",
           bound="18 946 inputs (native enumeration of the compiled code; not a deductive result; says nothing about inputs outside the family)",
           fns=[("transfer-syntax-registry/src/adapters/rle_lossless.rs", "read_rle_header"), ("object/src/collector.rs", "set_parser_with_ts")], timeout=1800),
+        N("C05.hostile3", _WR2 % "c05_hostile3",
+          "on the compiled code, the remaining entry points named by the statement: attribute selector texts (every string of up to 5 "
+          "characters over a 13-character alphabet, every single-character replacement / insertion / deletion in 7 valid selectors) through "
+          "DataDictionary::parse_selector; range texts (every string of up to 6 characters over { 0 1 9 - . + space }, mutations of 9 valid "
+          "ranges, non-UTF-8 bytes) through parse_date_range / parse_time_range / parse_datetime_range; encapsulated pixel data produced by "
+          "dicom-rs' own encoders (Encapsulated Uncompressed, JPEG Baseline, Deflated Image Frame Compression; 3 image shapes each) with every "
+          "truncation and single-byte mutation (00 / 01 / 7F / FF) of every fragment, malformed fragment sequences, 17 hostile basic offset "
+          "tables (empty, decreasing, equal, huge, off by one, too long) x 4 fragment layouts x 3 frame counts, hostile "
+          "image attributes, and the JPEG streams under the decoder-only JPEG transfer syntaxes, through decode_pixel_data / "
+          "decode_pixel_data_frame; every truncation and single-byte mutation of a Deflated Explicit VR Little Endian file through "
+          "from_reader (a sample also through open_file) and of a file meta group through FileMetaTable::from_reader: a value or an error, "
+          "never a panic",
+          bound="568 670 inputs (native enumeration of the compiled code; not a deductive result; says nothing about inputs outside the family)",
+          fns=[("transfer-syntax-registry/src/adapters/jpeg.rs", "decode_frame"), ("object/src/meta.rs", "from_reader"),
+               ("core/src/value/range.rs", "parse_datetime_range")], timeout=2400),
+        N("C05.depth", _WR2 % "c05_depth",
+          "the 'never aborts' clause on the compiled code: sequences nested to depth 10 / 100 / 1000 / 5000 / 20 000 / 200 000 (properly delimited, "
+          "or ending inside the innermost item) in the three uncompressed transfer syntaxes through the eager reader (then dumping and dropping the "
+          "object), the token reader, the lazy reader, from_reader on a complete file, and the same shape as DICOM JSON through "
+          "dicom_json::from_str; every case in a child process with a fixed 8 MiB stack, because a stack overflow aborts the process and cannot be "
+          "caught: a value or an error, never a dead process. KNOWN FINDING S24 (listed in known_findings.txt, not repaired): the eager reader "
+          "recurses once per nesting level and overflows the stack at depth 20 000",
+          bound="150 (reader, transfer syntax, termination, depth) cases (native enumeration of the compiled code; not a deductive result)",
+          fns=[("object/src/mem.rs", "build_sequence")], timeout=1800),
+        N("C05.alloc", _WR2 % "c05_alloc",
+          "the 'never aborts' clause under limited memory, on the compiled code: a few bytes that declare a length of 4 294 967 280 and then end "
+          "(an element of each of 11 long-form value representations and a defined-length sequence, in the three uncompressed transfer syntaxes; a "
+          "pixel data fragment; a basic offset table; a file meta element; PDUs and PDU items) through the eager reader, from_reader on a complete "
+          "file, the lazy reader (reading the value), FileMetaTable::from_reader and read_pdu; every case in a child process limited to 1 GiB of "
+          "address space (ulimit -v), because a failed allocation aborts the process and cannot be caught: a value or an error, never a dead "
+          "process. KNOWN FINDING S25 (listed in known_findings.txt, not repaired): the stateful decoder allocates the declared length up front",
+          bound="112 (reader, transfer syntax, element) cases (native enumeration of the compiled code; not a deductive result); skipped where "
+                "the address space of a child process cannot be limited",
+          fns=[("parser/src/stateful/decode.rs", "read_value_ob")], timeout=1800),
+        N("C05.hostile3_full", _WR2 % "c05_hostile3 -- full",
+          "the family of C05.hostile3 widened: selector strings of up to 6 characters, every byte (not every third) of long fragments cut and "
+          "mutated: a value or an error, never a panic",
+          bound="about 5.4 million inputs (native enumeration of the compiled code; not a deductive result)", tier="thorough", timeout=5400),
         N("C05.hostile_full", _WR2 % "c05_hostile",
           "on the compiled code, hostile inputs through the reading entry points the verifiers cannot process: every string of up to 6 "
           "characters over a 9-character alphabet (digits, separators, a multi-byte character) and single-character mutations of valid "
@@ -851,9 +909,9 @@ PROPS["C05"] = dict(
     assumptions=["panic-freedom (index, slice, overflow, unwrap, unreachable!) is an automatic obligation of both engines in every unit of every property",
                  "inputs shorter than a tag (0-3 bytes) are not covered by the header unit (CBMC budget)"],
     uncovered=["file opening and byte-source reading, file meta group reading, eager / lazy data set readers: deductively uncovered (only the native "
-               "units C05.hostile / C05.hostile2 exercise them)",
+               "units C05.hostile / C05.hostile2 / C05.hostile3 exercise them)",
                "DICOM JSON deserialisation, PDU body decoding, pixel data decoders, dump: deductively uncovered (only the native units)",
-               "attribute selector and range text parsers on hostile strings", "hang-freedom (termination) in general"],
+               "attribute selector and range text parsers: deductively uncovered (only the native unit C05.hostile3)", "hang-freedom (termination) in general"],
 )
 
 # ----------------------------------------------------------------------- C31
@@ -862,7 +920,7 @@ PROPS["C31"] = dict(
     units=[
         N("C31.command_length",
           "cp /repo/Cargo.lock /verif/witness/Cargo.lock && CARGO_TARGET_DIR=/verif/build/witness cargo run --offline -q --release "
-          "--manifest-path /verif/witness/Cargo.toml --bin c31_command_length 2>&1 | grep -E '^(WITNESS|EXHAUSTIVE|error)' | tail -12",
+          "--manifest-path /verif/witness/Cargo.toml --bin c31_command_length 2>&1 | grep -E '^(WITNESS|EXHAUSTIVE|SKIPPED|error)' | tail -220",
           "InMemDicomObject::command_from_element_iter on enumerated element lists, written with the real Implicit VR LE writer: the "
           "recorded (0000,0000) value equals the bytes of group 0000 that follow it in the written stream",
           bound="1377 element lists: up to 3 elements drawn (in both orders, duplicate tags included) from 16 candidates (UI/AE texts of "
@@ -882,7 +940,7 @@ PROPS["C17"] = dict(
     units=[
         N("C17.person_name",
           "cp /repo/Cargo.lock /verif/witness/Cargo.lock && CARGO_TARGET_DIR=/verif/build/witness cargo run --offline -q --release "
-          "--manifest-path /verif/witness/Cargo.toml --bin c17_person_name 2>&1 | grep -E '^(WITNESS|EXHAUSTIVE|error)' | tail -12",
+          "--manifest-path /verif/witness/Cargo.toml --bin c17_person_name 2>&1 | grep -E '^(WITNESS|EXHAUSTIVE|SKIPPED|error)' | tail -220",
           "PersonName built from up to five components over a 6-value alphabet: to_dicom_string then from_text gives the same components; "
           "trailing empty components omitted, leading ones kept",
           bound="7^5 = 16807 names — native enumeration, NOT a deductive result",
@@ -905,7 +963,7 @@ PROPS["C27"] = dict(
           "the callee's framing: every strict prefix of header + declared content reads as incomplete (shared with C25)", expected_verified=6),
         N("C27.association",
           "cp /repo/Cargo.lock /verif/witness/Cargo.lock && CARGO_TARGET_DIR=/verif/build/witness cargo run --offline -q --release "
-          "--manifest-path /verif/witness/Cargo.toml --bin c27_association 2>&1 | grep -E '^(WITNESS|EXHAUSTIVE|SKIPPED|error)' | tail -12",
+          "--manifest-path /verif/witness/Cargo.toml --bin c27_association 2>&1 | grep -E '^(WITNESS|EXHAUSTIVE|SKIPPED|error)' | tail -220",
           "association level, on the compiled code over a loopback TCP connection inside the process: a hand-written peer sends the handshake "
           "PDU (A-ASSOCIATE-AC to a requestor, A-ASSOCIATE-RQ to an acceptor) followed at once — in ONE write, and byte by byte — by a P-DATA-TF "
           "and an A-RELEASE-RQ: after establish, successive receive() calls (or receive_pdata() then receive()) return exactly those PDUs in "
@@ -915,7 +973,7 @@ PROPS["C27"] = dict(
           fns=[("ul/src/association/mod.rs", "read_pdu_from_wire")], timeout=600),
         N("C27.segmentations",
           "cp /repo/Cargo.lock /verif/witness/Cargo.lock && CARGO_TARGET_DIR=/verif/build/witness cargo run --offline -q --release "
-          "--manifest-path /verif/witness/Cargo.toml --bin c27_segmentations 2>&1 | grep -E '^(WITNESS|EXHAUSTIVE|error)' | tail -12",
+          "--manifest-path /verif/witness/Cargo.toml --bin c27_segmentations 2>&1 | grep -E '^(WITNESS|EXHAUSTIVE|SKIPPED|error)' | tail -220",
           "a fixed stream of three PDUs (A-RELEASE-RQ, P-DATA, A-ABORT) handed to the real read_pdu_from_wire in EVERY segmentation with at most "
           "three cut points: successive receives return exactly the three PDUs in order, then end of stream, nothing left over",
           bound="7807 segmentations of one 37-byte stream (native enumeration of the compiled code, incl. the real BufReader and read_pdu; not a deductive result)",
